@@ -394,7 +394,10 @@ pub fn worker(prop: &dyn Property, a: &WorkerArgs) -> i32 {
     match pre {
         Ok(Ok(())) => {}
         Ok(Err(v)) => {
-            if is_known(&findings, prop.id(), &v.key) {
+            if v.key.starts_with("harness") {
+                result = json!({"status": "harness_error", "msg": format!("[{}] {}", v.key, v.msg)});
+                code = 3;
+            } else if is_known(&findings, prop.id(), &v.key) {
                 *st.known_hits.entry(v.key.clone()).or_insert(0) += 1;
             } else {
                 let path = write_replay(prop.id(), &reg, None, &[], &v.msg, "prelude");
@@ -448,7 +451,12 @@ pub fn worker(prop: &dyn Property, a: &WorkerArgs) -> i32 {
             match r {
                 Ok(Ok(())) => Ok(()),
                 Ok(Err(v)) => {
-                    if is_known(&findings, prop.id(), &v.key) {
+                    if v.key.starts_with("harness") {
+                        // an inconsistency inside the harness (model vs glue), never a verdict about flatty
+                        *harness_err.borrow_mut() = Some(format!("[{}] {}", v.key, v.msg));
+                        failed.set(true);
+                        Err(TestCaseError::fail(format!("harness inconsistency: {}", v.msg)))
+                    } else if is_known(&findings, prop.id(), &v.key) {
                         *stats.known_hits.entry(v.key.clone()).or_insert(0) += 1;
                         Ok(())
                     } else {
